@@ -236,6 +236,7 @@ def run(ctx):
   # the error the gate sees is the error of the root that is stored (not of an intermediate of the same routine)
   C01.provenance(ctx)
   C01.lobpcg_path(ctx)
+  C01.size1_error_honest(ctx)      # ... also on the 1x1 shortcut (F21)
 
 
 def run_gate(ctx):
